@@ -344,6 +344,8 @@ fn fit_strategy(s: usize) -> BoxedStrategy<Fit> {
         1 => (lo..=hi).prop_map(Fit::Height),
         2 => (lo..=hi, lo..=hi).prop_map(|(w, h)| Fit::Both(w, h)),
         1 => (s32..=lo).prop_map(Fit::Width),
+        // requests smaller than the symbol (less than one pixel per module): only size, squareness and the PNG round trip apply
+        1 => prop_oneof![(1u32..=s32).prop_map(Fit::Width), (1u32..=s32).prop_map(Fit::Height), (1u32..=s32, lo..=hi).prop_map(|(a, b)| Fit::Both(a, b)), (1u32..=s32, lo..=hi).prop_map(|(a, b)| Fit::Both(b, a))],
         1 => (k_int, 0u32..300).prop_map(move |(k, extra)| Fit::Both(k * s32 + extra, k * s32)),
     ]
     .boxed()
